@@ -279,6 +279,19 @@ func runC06(c *Checker) {
 			if hasFact(st.Block(), recent) {
 				okk = false
 			}
+			// ... i.e. once lastResend is refreshed the packets are transmitted: the only way to a
+			// return without a transmission is an (by now) empty queue
+			isSend := func(in ssa.Instruction) bool {
+				for _, sd := range sends {
+					if in == sd {
+						return true
+					}
+				}
+				return false
+			}
+			if returnReachableSkippingLoopBody(st, func(r *ssa.Return) bool { return !hasFact(r.Block(), empty) }, isSend) {
+				okk = false
+			}
 		}
 		c.decide(okk, "RATELIMIT", "queue.resend|skipped only while the last resend is recent or the queue is empty", resend.Pos(),
 			"every early nil return is under time.Since(lastResend) < timeout or an empty queue; lastResend is refreshed only by a real resend",
@@ -614,4 +627,93 @@ func checkNackSuppression(c *Checker, rl *ssa.Function, head *ssa.BasicBlock) {
 	c.decide(found && okk, "NACKWIRE", "receiveLoop|NACK suppressed only briefly", instrPos(nackSends[0]),
 		"an out-of-sequence packet is answered with a NACK unless one was sent within a bounded time",
 		"an out-of-sequence DATA packet can be ignored without a NACK and without a time bound: the sender is never told what the receiver expects")
+}
+
+// forcedFirstSucc: control enters the loop header h from p (a block outside the loop) and
+// h tests "phi != y" / "phi == y" where the phi's operand for the edge p->h is a value v0
+// about which the facts at p already decide the test. Returns the only successor of h
+// that can be taken on that first visit.
+func forcedFirstSucc(p, h *ssa.BasicBlock) (*ssa.BasicBlock, bool) {
+	if len(h.Instrs) == 0 || len(h.Succs) != 2 || h.Dominates(p) {
+		return nil, false
+	}
+	iff, ok := h.Instrs[len(h.Instrs)-1].(*ssa.If)
+	if !ok {
+		return nil, false
+	}
+	bo, ok := iff.Cond.(*ssa.BinOp)
+	if !ok || (bo.Op != token.NEQ && bo.Op != token.EQL) {
+		return nil, false
+	}
+	idx := -1
+	for i, q := range h.Preds {
+		if q == p {
+			idx = i
+		}
+	}
+	if idx < 0 {
+		return nil, false
+	}
+	initial := func(v ssa.Value) ssa.Value {
+		if phi, ok := v.(*ssa.Phi); ok && phi.Block() == h {
+			return phi.Edges[idx]
+		}
+		if in, ok := v.(ssa.Instruction); ok && in.Block() == h {
+			return nil // recomputed in the header: unknown
+		}
+		return v
+	}
+	x0, y0 := initial(bo.X), initial(bo.Y)
+	if x0 == nil || y0 == nil {
+		return nil, false
+	}
+	for _, f := range factsOnEdge(p, h) {
+		fb, ok := f.Cond.(*ssa.BinOp)
+		if !ok || (fb.Op != token.NEQ && fb.Op != token.EQL) {
+			continue
+		}
+		if !((fb.X == x0 && fb.Y == y0) || (fb.X == y0 && fb.Y == x0)) {
+			continue
+		}
+		equal := (fb.Op == token.EQL) == f.Val
+		condTrue := (bo.Op == token.EQL) == equal
+		if condTrue {
+			return h.Succs[0], true
+		}
+		return h.Succs[1], true
+	}
+	return nil, false
+}
+
+// returnReachableSkippingLoopBody: like pathToReturn, but a loop whose condition is already
+// decided by the facts on entry is entered on its first visit (do-while reasoning).
+func returnReachableSkippingLoopBody(from ssa.Instruction, isTarget func(*ssa.Return) bool, avoid func(ssa.Instruction) bool) bool {
+	seen := map[*ssa.BasicBlock]bool{}
+	var walk func(b *ssa.BasicBlock, i int, only *ssa.BasicBlock) bool
+	walk = func(b *ssa.BasicBlock, i int, only *ssa.BasicBlock) bool {
+		for ; i < len(b.Instrs); i++ {
+			in := b.Instrs[i]
+			if avoid != nil && avoid(in) {
+				return false
+			}
+			if r, ok := in.(*ssa.Return); ok && isTarget(r) {
+				return true
+			}
+		}
+		for _, s := range b.Succs {
+			if only != nil && s != only {
+				continue
+			}
+			if seen[s] || !edgeFeasible(b, s) {
+				continue
+			}
+			seen[s] = true
+			forced, _ := forcedFirstSucc(b, s)
+			if walk(s, 0, forced) {
+				return true
+			}
+		}
+		return false
+	}
+	return walk(from.Block(), instrIndex(from)+1, nil)
 }
